@@ -249,6 +249,14 @@ impl WTClient {
         }
     }
 
+    /// Whether the client already has a record (accepted, pending or invalid) of a given appointment for a given tower.
+    pub fn has_appointment(&self, tower_id: TowerId, locator: Locator) -> bool {
+        self.towers.get(&tower_id).map_or(false, |tower| {
+            tower.pending_appointments.contains(&locator)
+                || tower.invalid_appointments.contains(&locator)
+        }) || self.dbm.load_appointment_receipt(tower_id, locator).is_some()
+    }
+
     /// Gets an appointment receipt from the database (if found).
     pub fn get_appointment_receipt(
         &self,
